@@ -8,6 +8,7 @@
    (C05_linearize_exact).  Without it the parallel-move algorithm may unfold a DAG. *)
 From Coq Require Import List ZArith NArith String Bool.
 From SCC Require Import Base.Sexp Lang.AxSyn Lang.AxSize Model.Linearize Model.LinCheck Model.Backend Model.X86.
+From SCC Require Model.A64 Model.RV.
 Import ListNotations.
 Open Scope list_scope.
 
@@ -48,3 +49,11 @@ Definition x86_K : N := 40 + 13 * FIELDS_PER_BLOCK.
 (* preamble 6 + setup 10 + at most 5 argument moves + cleanup 9 *)
 Definition x86_routine_overhead : N := 30.
 Definition x86_bound (p : prog) : N := x86_routine_overhead + x86_K * cg_bound_defs (pdefs p).
+
+(* AArch64 (Proof/SizeA64.v): preamble 3 + setup 9 + at most 7 argument moves + cleanup 9 *)
+Definition a64_K : N := 40 + 15 * A64.FIELDS_PER_BLOCK.
+Definition a64_routine_overhead : N := 28.
+Definition a64_bound (p : prog) : N := a64_routine_overhead + a64_K * cg_bound_defs (pdefs p).
+(* RISC-V (Proof/SizeRV.v): the instruction list of `compile` (no routine wrapper in the list) *)
+Definition rv_K : N := 20 + 13 * RV.FIELDS_PER_BLOCK.
+Definition rv_bound (p : prog) : N := rv_K * cg_bound_defs (pdefs p).
